@@ -498,7 +498,15 @@ pub fn gen_roompairs(r: &mut Rng, tier: &str) -> Vec<Case> {
     (0..n)
         .map(|i| {
             let p = InstParams { max_courses: 5, max_parts: 9, rooms: 0, nondyadic: i % 4 == 0, allow_freeable: i % 2 == 0 };
-            let inst = if i % 5 == 4 { gen::gen_f32_exact_product(r) } else { gen::gen_instance(r, &p) };
+            let mut inst = if i % 5 == 4 { gen::gen_f32_exact_product(r) } else { gen::gen_instance(r, &p) };
+            if i % 7 == 3 {
+                // every course needs less than one place per head: the non-binding list then offers
+                // fewer places than there are people (a bound "places >= people" would be wrong)
+                for c in inst.courses.iter_mut() {
+                    c.room_factor = r.pick(&[0.25f32, 0.5, 0.3, 0.125]);
+                    c.room_offset = 0.0;
+                }
+            }
             Case { stream: "roompairs", data: json!({"inst": inst.to_json(), "extra": r.below(3), "sched": Sched::gen(r).to_json()}) }
         })
         .collect()
@@ -746,7 +754,8 @@ pub fn gen_rooms(r: &mut Rng, tier: &str) -> Vec<Case> {
     (0..n)
         .map(|i| {
             let nc = 1 + r.usize(7);
-            let dy = [1.0f32, 1.0, 1.5, 2.0, 0.5, 2.5];
+            // incl. courses that need no room at all although they take place (factor 0)
+            let dy = [1.0f32, 1.0, 1.5, 2.0, 0.5, 2.5, 0.0];
             let courses: Vec<Value> = (0..nc)
                 .map(|_| json!({"factor_bits": r.pick(&dy).to_bits(), "offset_bits": r.pick(&[0.0f32, 0.0, 1.0, 2.5]).to_bits(), "fixed": r.chance(1, 5)}))
                 .collect();
